@@ -92,17 +92,14 @@ def apply(lines, on, nums):
                 brk = None
         if ('oneline', i) in on:
             gap = ' ' * (1 + nums.get(('gap', i), 0))
-            phys[-1][1] += gap + body
-            phys[-1][2] = brk
+            _append(phys[-1], gap + body, brk)
             oneline_active[lvl] = True
             continue
         if ('join', i) in on:
-            if ('oneline', i) not in on and phys and (phys[-1][2] is None):
-                prev_lvl = indent_of(lines[i - 1])
-                # joined either to a plain previous line or to a one-lined body
+            if ('oneline', i) not in on and phys:
+                # joined to the previous statement: after its last physical line if that one was broken
                 gap = ' ' * (1 + nums.get(('gap', i), 0))
-                phys[-1][1] += ';' + gap + body
-                phys[-1][2] = brk
+                _append(phys[-1], ';' + gap + body, brk)
                 continue
         phys.append([lvl, body, brk])
     out = []
@@ -116,6 +113,17 @@ def apply(lines, on, nums):
             out.append(' ' * cont + seg)
         k += 1
     return '\n'.join(out) + '\n', len(phys)
+
+
+def _append(entry, text, brk):
+    """continue the last physical line of a statement entry [level, first line, continuation lines or None]"""
+    if entry[2]:
+        entry[2][-1] += text
+        if brk:
+            entry[2].extend(brk)
+    else:
+        entry[1] += text
+        entry[2] = brk
 
 
 def positions(text):
